@@ -318,7 +318,7 @@ func batch[W any](t *testing.T, h Harness[W]) {
 		}
 		if o.Class != "" {
 			f := mkFailure(h, w, cfg, o, seed, idx, rs)
-			if o.Class != "infra" {
+			if o.Class != "infra" && os.Getenv("VERIF_NOMIN") == "" {
 				f = minimise(t, h, w, f)
 			}
 			sum.Failures = append(sum.Failures, f)
